@@ -2,10 +2,12 @@ package syntax
 
 import (
 	"context"
+	"fmt"
 	"io"
 	"os"
 	"path"
 	"path/filepath"
+	"strings"
 	"text/scanner"
 
 	"github.com/sboehler/knut/lib/common/cpr"
@@ -81,7 +83,7 @@ func ParseFileRecursively(file string) (<-chan directives.File, func(context.Con
 	return cpr.Produce(func(ctx context.Context, ch chan<- directives.File) error {
 		wg, ctx := errgroup.WithContext(ctx)
 		wg.Go(func() error {
-			res, err := parseRec(ctx, wg, ch, file)
+			res, err := parseRec(ctx, wg, ch, file, nil)
 			if err != nil {
 				return err
 			}
@@ -96,7 +98,16 @@ type Result struct {
 	Err  error
 }
 
-func parseRec(ctx context.Context, wg *errgroup.Group, resCh chan<- directives.File, file string) (directives.File, error) {
+// parseRec parses file and, concurrently, every file it includes. ancestors
+// is the chain of files whose include directives led to file: a file that is
+// already on that chain would be included forever, so it is an error.
+func parseRec(ctx context.Context, wg *errgroup.Group, resCh chan<- directives.File, file string, ancestors []string) (directives.File, error) {
+	for _, a := range ancestors {
+		if filepath.Clean(a) == filepath.Clean(file) {
+			return directives.File{}, fmt.Errorf("include cycle: %s", strings.Join(append(ancestors, file), " includes "))
+		}
+	}
+	ancestors = append(ancestors[:len(ancestors):len(ancestors)], file)
 	text, err := os.ReadFile(file)
 	if err != nil {
 		return directives.File{}, err
@@ -109,7 +120,7 @@ func parseRec(ctx context.Context, wg *errgroup.Group, resCh chan<- directives.F
 		if inc, ok := d.Directive.(directives.Include); ok {
 			file := path.Join(filepath.Dir(file), inc.IncludePath.Content.Extract())
 			wg.Go(func() error {
-				res, err := parseRec(ctx, wg, resCh, file)
+				res, err := parseRec(ctx, wg, resCh, file, ancestors)
 				if err != nil {
 					return err
 				}
